@@ -447,12 +447,12 @@ PAIRS = {
     ("Float", "Integer"): ("narrowing", True, "only integral floats convert; a non-degenerate float interval with integral ends contains non-integral values"),
     ("DateTime", "Date"): ("narrowing", True, "only midnights convert; a non-degenerate datetime interval with midnight ends contains other instants"),
     ("Boolean", "Text"): ("render", False, "format!"),
-    ("Integer", "Text"): ("render", False, "format!"),
-    ("Float", "Text"): ("render", False, "format!"),
-    ("Date", "Text"): ("render", False, "format!"),
-    ("Time", "Text"): ("render", False, "format!"),
-    ("DateTime", "Text"): ("render", False, "format!"),
-    ("Duration", "Text"): ("render", False, "format!"),
+    ("Integer", "Text"): ("render", "guard", "format! is not order-preserving (\"5\" > \"1000\"): the end-point image of an interval is unsound, so intervals_image needs single values"),
+    ("Float", "Text"): ("render", "guard", "format! is not order-preserving (\"5\" > \"1000\"): the end-point image of an interval is unsound, so intervals_image needs single values"),
+    ("Date", "Text"): ("render", "guard", "format! is not order-preserving (\"5\" > \"1000\"): the end-point image of an interval is unsound, so intervals_image needs single values"),
+    ("Time", "Text"): ("render", "guard", "format! is not order-preserving (\"5\" > \"1000\"): the end-point image of an interval is unsound, so intervals_image needs single values"),
+    ("DateTime", "Text"): ("render", "guard", "format! is not order-preserving (\"5\" > \"1000\"): the end-point image of an interval is unsound, so intervals_image needs single values"),
+    ("Duration", "Text"): ("render", "guard", "format! is not order-preserving (\"5\" > \"1000\"): the end-point image of an interval is unsound, so intervals_image needs single values"),
 }
 
 
@@ -505,11 +505,10 @@ def j4(rep, src, impls):
         t = block_value(f.body)
         via = t["m"] if t is not None and t["k"] == "mcall" and path_of(t["recv"]) == "self" else None
         sample = {"impl": ty, "class": cls, "why": reason, "value_through": via}
+        clo = t["args"][0] if via == "value_map_option" and t["args"] and t["args"][0]["k"] == "closure" else None
         if cls != "narrowing":
             rep.instance("J4", ty, sample, nontrivial=False)
-            continue
-        clo = t["args"][0] if via == "value_map_option" and t["args"] and t["args"][0]["k"] == "closure" else None
-        if clo is None:
+        elif clo is None:
             rep.instance("J4", ty, sample)
             rep.violation("J4", ty, "the narrowing conversion %s -> %s does not use value_map_option(<closure>, arg) (found %s): no value can be refused" % (pair[0], pair[1], via), f.where())
         else:
@@ -547,7 +546,7 @@ def j4(rep, src, impls):
                 % (ty, setp),
                 g.where(),
             )
-        elif not refuses:
+        elif dense is True and not refuses:
             rep.violation("J4", key, "%s::super_image does not answer Err when the set is not made of single values" % ty, g.where())
     for pair in PAIRS:
         if pair not in seen:
